@@ -1,4 +1,5 @@
 import LyModel.Diff.Obs13
+import LyModel.Diff.Exact13
 import LyModel.Diff.Drv
 /-! driver ops of component `diff13` (reverse and merge of diffs, C13): see harness/api_diff13.c for the protocol -/
 namespace LyModel.Diff.Drv13
@@ -18,6 +19,12 @@ def handle (op : String) (args : List String) : String :=
   | "diff", [dsl, a, b, o] =>
     withSchema dsl fun S => withTree S a fun A => withTree S b fun B =>
       "ok " ++ dumpTok (stripNpL S (diff S (o != "0") A B))
+  | "exact", [dsl, a, b, o] =>
+    -- model only: is the diff of the model an exact diff of the fragment (Exact13.lean)?  fields: good(A) good(B) no-userord exact
+    withSchema dsl fun S => withTree S a fun A => withTree S b fun B =>
+      let D := diff S (o != "0") A B
+      let b := fun (x : Bool) => if x then "1" else "0"
+      "ok " ++ b (goodL S A) ++ " " ++ b (goodL S B) ++ " " ++ b (noUserOrdL S D) ++ " " ++ b (exactDiff S A D)
   | "reverse", [dsl, a, b, o] =>
     withSchema dsl fun S => withTree S a fun A => withTree S b fun B =>
       let dflt := o != "0"
